@@ -150,7 +150,8 @@ func genC07(t *rapid.T) c07Case {
 		c.Quantified = append(c.Quantified, countQuantified(body))
 		total += countQuantified(body)
 		p.Validations = append(p.Validations, m.Validation{Name: fmt.Sprintf("validation-%d", i), Level: pick(t, []string{"violation", "warning", "info"}, "level"), Class: pick(t, classes, "class"), Body: body,
-			Message: pick(t, []string{"", "plain", "value {{ex.p0}}"}, "msg")})
+			Message: pick(t, []string{"", "plain", "value {{ex.p0}}", "{{ex.p0}} and again {{ex.p0}}", "{{ex.p0}} {{ex.p1}} {{ ex.p0 }} {{ex.p-1}} {{ex.p_1}}",
+				"{{ex.a}}{{ex.b}}{{ex.c}}{{ex.d}}{{ex.e}}{{ex.f}}{{ex.g}}{{ex.h}}{{ex.i}}{{ex.j}}{{ex.k}}{{ex.l}}", "{{shapes.name}} {{core.name}}"}, "msg")})
 	}
 	c.ProfileText = p.ToY().Print(m.YOpts{})
 	return c
